@@ -694,3 +694,153 @@ def branch_identity(R, ctx, rid):
                  "Branch.name is read without `item is None` on its path: a nested branch that carries its root parent's name is "
                  "taken for that root", "%s:%s" % (fn.file, st["line"]))
     R.floor(rid, "identity reads of Branch.name", n, 3)
+
+
+def weak_link_flags(R, ctx, rid):
+    """the info byte of a weak link says which kind of boundary each side of the quoted range is; writer and reader must agree."""
+    from ylib.formula import Formulas, truth_check, fshow, missing_atoms, atoms_of, evaluate
+    import itertools
+    Y = ctx.yrs
+    R.rule(rid, "R-TABLE kind of boundary <-> info bits of a weak link (by truth table over exact path formulas): the writer "
+                "TypeRef::encode_weak_link sets QUOTE iff !is_single, PARENT_ROOT iff start or end is a Root scope, START_/END_UNBOUNDED "
+                "iff that boundary is NOT Relative (an open side of a root-level or NESTED collection), START_/END_ASSOC iff assoc == "
+                "After; the reader decode_weak_link builds, per boundary, Root iff UNBOUNDED && PARENT_ROOT, Nested iff UNBOUNDED && "
+                "!PARENT_ROOT, Relative iff !UNBOUNDED (the end of a single-element link is a copy of its start). The stream layout is "
+                "the same for Relative and Nested (an id), so a disagreement here is invisible to the grammar comparison: the id of "
+                "the nested collection would be read back as the id of an element")
+    wf = Y.fn("yrs::types::TypeRef::encode_weak_link")
+    fm = Formulas(wf, simp_deep)
+
+    def wcls(k, t):
+        t = simp_deep(t) if isinstance(t, tuple) else t
+        if not isinstance(t, tuple) or t[0] != "call":
+            return None
+        side = "S" if term_has_field(t, "quote_start") else ("E" if term_has_field(t, "quote_end") else "")
+        if t[1].endswith("StickyIndex::is_relative"):
+            return "REL" + side
+        if t[1].endswith("StickyIndex::is_root"):
+            return "ROOT" + side
+        if t[1].endswith("StickyIndex::is_nested"):
+            return "NEST" + side
+        if t[1].endswith("LinkSource::is_single"):
+            return "SINGLE"
+        if re.search(r"PartialEq(<.*>)?>?::eq$", t[1]) and term_has_field(t, "StickyIndex.assoc"):
+            return "AFTER" + side
+        return None
+    # required bit as a function of the semantic state (kind of each boundary, single, assoc of each side)
+    want_w = {
+        "WEAK_REF_FLAGS_QUOTE": lambda s_: not s_["single"],
+        "WEAK_REF_FLAGS_PARENT_ROOT": lambda s_: s_["S"] == "Root" or s_["E"] == "Root",
+        "WEAK_REF_FLAGS_START_UNBOUNDED": lambda s_: s_["S"] != "Relative",
+        "WEAK_REF_FLAGS_END_UNBOUNDED": lambda s_: s_["E"] != "Relative",
+        "WEAK_REF_FLAGS_START_ASSOC": lambda s_: s_["afterS"],
+        "WEAK_REF_FLAGS_END_ASSOC": lambda s_: s_["afterE"],
+    }
+
+    def atom_value(name, s_):
+        if name == "SINGLE":
+            return s_["single"]
+        if name in ("AFTERS", "AFTERE"):
+            return s_["after" + name[-1]]
+        kind = {"REL": "Relative", "ROOT": "Root", "NEST": "Nested"}[name[:-1]]
+        return s_[name[-1]] == kind
+    states = [dict(S=a, E=b, single=c, afterS=d_, afterE=e_) for a in ("Relative", "Nested", "Root") for b in ("Relative", "Nested", "Root")
+              for c in (False, True) for d_ in (False, True) for e_ in (False, True)]
+    seen = set()
+    for i, j, st in wf.stmts():
+        rv = st["rv"]
+        if rv.get("bin") != "BitOr" or not isinstance(rv.get("b"), dict) or not str(rv["b"].get("named", "")).startswith("yrs::types::WEAK_REF_FLAGS_"):
+            continue
+        name = rv["b"]["named"].rsplit("::", 1)[-1]
+        if name not in want_w:
+            continue
+        seen.add(name)
+        f = fm.reach(i)
+        ats = atoms_of(f)
+        cl = {k: wcls(k, ats[k]) for k in ats}
+        free = [k for k in ats if not cl[k] or cl[k][-1] not in "SEL" and cl[k] != "SINGLE"]
+        ok = not free
+        cex = None
+        if ok:
+            for s_ in states:
+                env = {k: atom_value(cl[k], s_) for k in ats}
+                if evaluate(f, env) != bool(want_w[name](s_)):
+                    ok = False
+                    cex = {k_: s_[k_] for k_ in ("S", "E", "single")}
+                    break
+        R.ob(rid, wf, "writer:" + name.replace("WEAK_REF_FLAGS_", ""), ok,
+             "set exactly for the states of its table row (%d states)" % len(states) if ok else
+             "the bit is set under %s — not its table row (unclassified tests: %s; counterexample state %s)" % (fshow(f)[:160], free[:2], cex),
+             "%s:%s" % (wf.file, st["line"]))
+    R.ob(rid, wf, "writer:bits", seen == set(want_w), "bits written: %s" % sorted(x.replace("WEAK_REF_FLAGS_", "") for x in seen))
+    rf = Y.fn("yrs::types::TypeRef::decode_weak_link")
+    rm = Formulas(rf, simp_deep)
+
+    def rcls(k, t):
+        t = simp_deep(t) if isinstance(t, tuple) else t
+        if not isinstance(t, tuple) or t[0] != "bin" or t[1] not in ("Eq", "Ne"):
+            return None
+        consts = [str(x[2]) for x in walk(t) if x[0] == "const" and len(x) > 2 and "WEAK_REF_FLAGS_" in str(x[2])]
+        names_ = {c.rsplit("::", 1)[-1].replace("WEAK_REF_FLAGS_", "") for c in consts}
+        if len(names_) != 1:
+            return None
+        n = names_.pop()
+        masked = any(x[0] == "bin" and x[1] == "BitAnd" for x in walk(t))
+        if not masked:
+            return None
+        zero = any(x[0] == "const" and str(x[1]).split("_")[0] == "0" and not (len(x) > 2 and x[2]) for x in (simp_deep(t[2]), simp_deep(t[3])))
+        # (flags & C) == C  -> bit set ; (flags & C) == 0 -> bit clear
+        pos = (t[1] == "Eq") != zero
+        return n if pos else "!" + n
+    aggs = [(i, st) for i, j, st in rf.stmts() if "agg" in st["rv"] and str(st["rv"]["agg"].get("adt", "")).endswith("IndexScope")]
+    R.floor(rid, "IndexScope constructions in decode_weak_link", len(aggs), 6)
+    for i, st in aggs:
+        var = st["rv"]["agg"].get("variant")
+        f = rm.reach(i)
+        ats = atoms_of(f)
+        named = {k: rcls(k, ats[k]) for k in ats}
+        side = "END" if any(v and v.lstrip("!") == "END_UNBOUNDED" for v in named.values()) else "START"
+        U = side + "_UNBOUNDED"
+        req = {"Root": lambda e: e[U] and e["PARENT_ROOT"], "Nested": lambda e: e[U] and not e["PARENT_ROOT"],
+               "Relative": (lambda e: not e[U]) if side == "START" else (lambda e: (not e[U]) and e["QUOTE"])}[var]
+        need = {"Root": [U, "PARENT_ROOT"], "Nested": [U, "PARENT_ROOT"], "Relative": [U] if side == "START" else [U, "QUOTE"]}[var]
+        have = {v.lstrip("!") for v in named.values() if v}
+        lost = [n for n in need if n not in have]
+        dec = [k for k in ats if named[k]]
+        oth = [k for k in ats if not named[k]]
+        ok = not lost
+        cex = None
+        if ok:
+            for vals in itertools.product([False, True], repeat=len(dec)):
+                env = dict(zip(dec, vals))
+                e = {}
+                cons = True
+                for k, val in env.items():
+                    n = named[k]
+                    vv = (not val) if n.startswith("!") else val
+                    n = n.lstrip("!")
+                    if n in e and e[n] != vv:
+                        cons = False
+                    e[n] = vv
+                if not cons or not all(n in e for n in need):
+                    continue
+                # the other atoms (no decode error so far, ...) are quantified existentially
+                reach = False
+                for ov in itertools.product([False, True], repeat=min(len(oth), 10)):
+                    e2 = dict(env)
+                    e2.update(dict(zip(oth[:10], ov)))
+                    for k in oth[10:]:
+                        e2[k] = True
+                    if evaluate(f, e2):
+                        reach = True
+                        break
+                # restrict to the bits this boundary's decision may depend on
+                if side == "END" and "START_UNBOUNDED" in e:
+                    pass
+                if reach != bool(req(e)):
+                    ok = False
+                    cex = {"bits": e, "built": reach, "table": bool(req(e))}
+                    break
+        R.ob(rid, rf, "reader:%s:%s" % (side, var), ok, "%s boundary: %s built exactly under its table row" % (side.lower(), var) if ok else
+             "%s boundary: %s is built under other bit patterns than its table row (missing tests: %s; counterexample %s)" % (side.lower(), var, lost, cex),
+             "%s:%s" % (rf.file, st["line"]))
